@@ -31,7 +31,7 @@ import gen
 import semantic
 import wire
 
-LEAN_MODULES = ["PySMT.Props.C09"]
+LEAN_MODULES = ["PySMT.Props.C09", "PySMT.Props.C09HR"]
 RULE = ("type-directed random formulas of every sort (Bool/Int/Real/BV/String/Array/UF/quantifiers, shared sub-terms) over "
         "symbols named by a name generator (simple, needing quotes, leading digit, spaces, .def_0-like -- in half of the "
         "universes a run of 2-4 CONSECUTIVE .def_k names, k from 0 to 10, given to the Bool/Int symbols --, never reserved "
@@ -1047,6 +1047,7 @@ def run_hr_roundtrip(ctx, n, lines, meta):
         ctx.count("hr_roundtrip")
         rep = {"text": text, "wire": _enc(f)}
         tags = hr_known_shape(f, names)
+        hr_model_record(env, f, text, tags)
         try:
             with warnings.catch_warnings():
                 warnings.simplefilter("ignore")
@@ -1077,6 +1078,161 @@ def run_hr_roundtrip(ctx, n, lines, meta):
             continue
         lines.append(line)
         meta.append((dict(sig, kind="meaning"), dict(rep, returned=t2)))
+
+
+# ------------------------------------------------------------------------------------------
+# K for the human-readable format: Impl/HR.lean (token level) against HRPrinter + HRLexer + PrattParser
+K_HR = []
+
+
+def hr_real_tokens(env, text):
+    """The tokens the REAL scanner (`HRLexer(env).tokenize`) makes of `text`, in the wire encoding of Drivers/C09HR.lean:
+    a fixed rule / identifier-map entry by the spelling of its rule (`tools/gen_hrops.spelling_of` of the rule's regex,
+    found through the identity of the token object), a constant by its value, an identifier by the symbol the scanner
+    resolved it to.  -> ("ok", [wire tokens]) | ("err", exception class)"""
+    import sys
+    import os
+    tools = os.path.join(os.path.dirname(os.path.dirname(os.path.dirname(os.path.abspath(__file__)))), "tools")
+    if tools not in sys.path:
+        sys.path.insert(0, tools)
+    import gen_hrops
+    import pysmt.parsing as P
+    lexer = P.HRLexer(env)
+    spelling = {}
+    for rule in lexer.rules:
+        if rule.symbol is not None and not rule.is_functional:
+            spelling[id(rule.symbol)] = gen_hrops.spelling_of(rule.regex)
+    for k, v in lexer._identifier_map.items():
+        spelling[id(v)] = k
+    out = []
+    try:
+        for tok in lexer.tokenize(text):
+            if isinstance(tok, P.EndOfInput):
+                break
+            if id(tok) in spelling:
+                out.append("o " + wire.hexs(spelling[id(tok)]))
+            elif isinstance(tok, P.Identifier):
+                v = tok.value
+                out.append("y %s %s" % (wire.hexs(v.symbol_name()), wire.enc_symty(v.symbol_type())))
+            elif isinstance(tok, P.BVTypeTok):
+                out.append("T %d" % tok.width)
+            elif isinstance(tok, P.Constant):
+                v = tok.value
+                if v.is_int_constant():
+                    out.append("i %d" % int(v.constant_value()))
+                elif v.is_real_constant():
+                    fr = Fraction(v.constant_value())
+                    out.append("r %d %d" % (fr.numerator, fr.denominator))
+                elif v.is_bv_constant():
+                    out.append("v %d %d" % (int(v.constant_value()), v.bv_width()))
+                elif v.is_string_constant():
+                    out.append("s " + wire.hexs(v.constant_value()))
+                else:
+                    return ("err", "UnknownConstant")
+            else:
+                return ("err", "UnknownToken:" + type(tok).__name__)
+    except RecursionError:
+        raise
+    except Exception as e:
+        return ("err", type(e).__name__)
+    return ("ok", out)
+
+
+def hr_model_record(env, f, text, tags):
+    """one case of the HR stream for `run_hr_model`: the formula, the real scanner's tokens of the real serialisation, the
+    real parser's answer"""
+    try:
+        w = wire.enc_term(f)
+    except wire.OutOfFragment:
+        return
+    toks = hr_real_tokens(env, text)
+    try:
+        with warnings.catch_warnings():
+            warnings.simplefilter("ignore")
+            g = HRParser(env).parse(text)
+        try:
+            impl = ("ok", wire.enc_term(g), g is f)
+        except wire.OutOfFragment:
+            return
+    except RecursionError:
+        raise
+    except Exception as e:
+        impl = ("err", type(e).__name__, False)
+    K_HR.append((w, text, toks, impl, "+".join(sorted(tags))))
+
+
+def run_hr_model(ctx):
+    """K (human-readable format, token level; precise comparison):
+     1. `hrtokens f`: the printer model's token list must be EQUAL, token by token (constants by value, identifiers by
+        resolved symbol, every other token by the spelling of its lexer rule), to the real scanner's tokens of the real
+        `f.serialize()` -- white space is the only thing not compared (the scanner drops it), parentheses ARE compared;
+     2. `hrparse <those real tokens>`: the parser model's term must be the wire encoding of the real
+        `HRParser(env).parse(text)` (an error on both sides agrees);
+     3. `hrfrag f`: when the Lean side says `f` is in the fragment of `Props.C09HR.hr_roundtrip` the real parser must have
+        returned the very same formula object (the theorem's statement, on the implementation)."""
+    if not K_HR:
+        return
+    lines = []
+    for w, text, toks, impl, tags in K_HR:
+        lines.append("hrtokens " + w)
+        lines.append("hrfrag " + w)
+        if toks[0] == "ok":
+            lines.append("hrparse %d %s" % (len(toks[1]), " ".join(toks[1])) if toks[1] else "hrparse 0")
+    try:
+        answers = ctx.lean_run_sharded("C09HR", lines)
+    except common.LeanError as e:
+        ctx.report_l("driver C09HR does not run", str(e))
+        return
+    it = iter(answers)
+    for w, text, toks, impl, tags in K_HR:
+        a_tok, a_frag = next(it), next(it)
+        a_parse = next(it) if toks[0] == "ok" else None
+        ctx.count("k_hr_cases")
+        if a_tok.startswith("bad-op") or a_frag.startswith("bad-op") or (a_parse or "").startswith("bad-op"):
+            ctx.infra("C09HR driver rejected a request: %s | %s | %s" % (a_tok[:80], a_frag[:80], (a_parse or "")[:80]))
+            continue
+        rep = {"wire": w, "text": text}
+        # 1. tokens
+        model_toks = a_tok.split(" ", 2)[2] if a_tok.count(" ") >= 2 else ""
+        if toks[0] == "ok":
+            if model_toks != " ".join(toks[1]):
+                if tags:
+                    ctx.count("k_hr_tokens_differ_known_shape")      # F30 shapes: the scanner splits the text differently
+                else:
+                    ctx.report_k("HR printer model: the token list differs from the real scanner's tokens of f.serialize() "
+                                 "= %s" % text[:200], dict(rep, model=model_toks, implementation=" ".join(toks[1])))
+                    continue
+            else:
+                ctx.count("k_hr_tokens_agree")
+        else:
+            # the real scanner fails: the model must hold a token the scanner cannot make
+            if " u " not in " " + model_toks + " " and not tags:
+                ctx.report_k("HR printer model: the real scanner raises %s on f.serialize() = %s, the model's token list "
+                             "has no unreadable token" % (toks[1], text[:200]), dict(rep, model=model_toks))
+                continue
+            ctx.count("k_hr_scanner_error")
+        # 2. parser
+        if a_parse is not None:
+            m = "err" if a_parse.startswith("err") else a_parse[3:]
+            i = "err" if impl[0] == "err" else impl[1]
+            if m != i:
+                ctx.report_k("HR parser model: on the tokens of %s the model answers %s, HRParser.parse %s"
+                             % (text[:200], a_parse[:150], (impl[1] if impl[0] == "ok" else "err " + impl[1])[:150]),
+                             dict(rep, tokens=" ".join(toks[1]), model=a_parse, implementation=impl[1]))
+                continue
+            ctx.count("k_hr_parse_agree")
+        # 3. the theorem's statement on the implementation
+        frag, self_rt = a_frag.split()
+        if frag == "true":
+            ctx.count("k_hr_in_fragment")
+            if self_rt != "same":
+                ctx.report_k("HR models: a formula of the fragment does not round-trip in the models (%s): %s"
+                             % (self_rt, text[:200]), rep)
+            elif not (impl[0] == "ok" and impl[2]) and not tags:
+                ctx.report_k("HR round trip: a formula of the proved fragment is not returned identically by "
+                             "HRParser.parse(f.serialize()): %s" % text[:200], dict(rep, implementation=impl[1]))
+        else:
+            ctx.count("k_hr_outside_fragment")
 
 
 def finish_sem(ctx, lines, meta):
@@ -1176,6 +1332,7 @@ def run(ctx):
     lines, meta = [], []
     del K_RT[:]
     del K_SCRIPTS[:]
+    del K_HR[:]
     run_witnesses(ctx)
     run_smt_roundtrip(ctx, 900 if quick else 15000)
     run_script_roundtrip(ctx, 150 if quick else 2500)
@@ -1183,6 +1340,7 @@ def run(ctx):
     run_hr_roundtrip(ctx, 900 if quick else 15000, lines, meta)
     finish_sem(ctx, lines, meta)
     run_model(ctx)
+    run_hr_model(ctx)
 
 
 K_RT = []
